@@ -831,6 +831,25 @@ impl Sim {
             }
             (Mech::ShortTerm(_), k) => out.push(finding(&["C07"], format!("{:?} reported by a short-term client for a received response", k))),
             (Mech::LongTerm, FinalKind::Retry) => {
+                // RFC 8489 9.2.5: an integrity attribute that is present in a 401 / 438 must verify (under the key the
+                // challenge implies / the session key); a retry instruction from a forged challenge is a C08 matter
+                if trusted && !self.desync {
+                    let (kind_sha, certain) = match facts.error_code {
+                        Some(401) => (facts.algs.is_some(), true),
+                        _ => (self.server_key_for(None).1, self.lt_key_certain()),
+                    };
+                    let present_invalid = if kind_sha { facts.sha == Some(false) } else { facts.mi == Some(false) };
+                    if certain && present_invalid {
+                        out.push(finding(
+                            &["C08"],
+                            format!(
+                                "retry instructed by a {} response whose {} is present but does not verify",
+                                facts.error_code.unwrap_or(0),
+                                if kind_sha { "MESSAGE-INTEGRITY-SHA256" } else { "MESSAGE-INTEGRITY" }
+                            ),
+                        ));
+                    }
+                }
                 // the client accepted a challenge: follow it
                 match facts.error_code {
                     Some(401) if facts.realm.is_some() && facts.nonce.is_some() => {
